@@ -60,33 +60,34 @@ Section Show.
     end.
   Definition is_logic (e : expr) : bool :=
     match e with EBin OAnd _ _ | EBin OOr _ _ => true | _ => false end.
-  Fixpoint show_path (fuel : nat) (p : path) : list N :=
-    match fuel with O => [] | S f =>
+  (* Display for Path and Expr: structural recursion (an expression prints the paths it contains, a filter step prints
+     its expression); no fuel, so a path of any size and nesting depth is printed in full *)
+  Definition show_path_with (se : expr -> list N) (p : path) : list N :=
     match p with
     | PRoot => [36] | PCurrent => [64] | PDotWild => [46; 42] | PBracketWild => [91; 42; 93]
     | PColonField s => 58 :: s
     | PDotField s => 46 :: s
     | PObjectField s => [91; 34] ++ s ++ [34; 93]
     | PIndices l => 91 :: join [44; 32] (map show_array_index l) ++ [93]
-    | PFilter e => [63; 40] ++ show_expr f e ++ [41]
-    | PPredicate e => show_expr f e
-    end end
-  with show_expr (fuel : nat) (e : expr) : list N :=
-    match fuel with O => [] | S f =>
+    | PFilter e => [63; 40] ++ se e ++ [41]
+    | PPredicate e => se e
+    end.
+  Fixpoint show_expr (e : expr) {struct e} : list N :=
     match e with
-    | EPaths l => flat_map (show_path f) l
+    | EPaths l => flat_map (show_path_with (fun e' => show_expr e')) l
     | EValue v => show_pvalue v
     | EBin op l r =>
-        let sl := if is_logic l then 40 :: show_expr f l ++ [41] else show_expr f l in
-        let sr := if is_logic r then 40 :: show_expr f r ++ [41] else show_expr f r in
+        let sl := if is_logic l then 40 :: show_expr l ++ [41] else show_expr l in
+        let sr := if is_logic r then 40 :: show_expr r ++ [41] else show_expr r in
         sl ++ [32] ++ show_binop op ++ [32] ++ sr
-    | EArithU op x => (match op with UAdd => [43] | USub => [45] end) ++ show_expr f x
+    | EArithU op x => (match op with UAdd => [43] | USub => [45] end) ++ show_expr x
     | EArithB op l r =>
-        show_expr f l ++ [32] ++ (match op with BAdd => [43] | BSub => [45] | BMul => [42] | BDiv => [47] | BMod => [37] end)
-          ++ [32] ++ show_expr f r
-    | EExists l => [101; 120; 105; 115; 116; 115; 40] ++ flat_map (show_path f) l ++ [41]
-    end end.
-  Definition show_json_path (ps : list path) : list N := flat_map (show_path 200) ps.
+        show_expr l ++ [32] ++ (match op with BAdd => [43] | BSub => [45] | BMul => [42] | BDiv => [47] | BMod => [37] end)
+          ++ [32] ++ show_expr r
+    | EExists l => [101; 120; 105; 115; 116; 115; 40] ++ flat_map (show_path_with (fun e' => show_expr e')) l ++ [41]
+    end.
+  Definition show_path (p : path) : list N := show_path_with show_expr p.
+  Definition show_json_path (ps : list path) : list N := flat_map show_path ps.
 End Show.
 
 Definition show_keypath (k : keypath) : list N :=
